@@ -177,8 +177,10 @@ func (r *Registry) GetNoCacheOutputHash(ctx context.Context, target *model.Targe
 			if err != nil {
 				return err
 			}
+			// Bind the content digest to the output it belongs to: two outputs exchanging their
+			// contents (or an output renamed with the same content) is a change dependants must see
 			outputsMutex.Lock()
-			digests = append(digests, outputDigest)
+			digests = append(digests, hashing.HashString(localOutputRef.String()+"\x00"+outputDigest))
 			outputsMutex.Unlock()
 			return nil
 		})
